@@ -279,8 +279,8 @@ def classify(w):
 
 
 GENS = {
-    "roundtrip": Gen(case_roundtrip, 5200, 260000),
-    "channel": Gen(case_channel, 3300, 165000),
+    "roundtrip": Gen(case_roundtrip, 5200, 1000000),
+    "channel": Gen(case_channel, 3300, 600000),
     "reject": Gen(case_reject, 28, 280),
 }
 MIN_EVALS = {"round-trip": 4000, "emitted-length": 2000, "prefix-is-copy-of-tail": 2000,
